@@ -57,6 +57,10 @@ ATOMS_CORE = ["a", " ", "*", "_", "`", "[", "]", "(u)", "![", "](u)", "<", ">", 
 SEPARATORS = ["\x0b", "\x0c", "\x1c", "\x1d", "\x1e", "\x85", "\u2028", "\u2029"]
 SEP_LEAVES = ["a" + c + "b" for c in SEPARATORS] + ["\x0c", "\u2028", "# a\x0cb", "```\nfoo\x0cbar", "    a\u2028b",
                                                        "<div>\x85x", "a\x1d", "- a\x0bb"]
+# reference definitions whose destination / title / label contain escapes, references to line ends and real line ends
+DEF_LEAVES = ['[r]: /u "a&#10;b"', "[r]: /u 'a&NewLine;b'", '[r]: /u "&#xA;&#10;"', '[r]: /u "a\nb"', '[r]: /u\n"t"', "[r]:\n/u",
+              "[r]: <a b> (t&#10;)", "[r&#10;x]: /u", "[r]: /u&#10;v", '[r]: /u "t" x', '[r]: /u "a\\\nb"', "[r\nx]: /u",
+              '[r]: /u "a\n\nb"', "[r]: /u (a&#13;b)"]
 # delimiter runs: the "rule of 3", runs that can both open and close, lone markers next to closers
 EMPH_ATOMS = ["a", "*", "**", "_", " "]
 STRIKE_ATOMS = ["[", "~~", "~", "a", "](u)", "*", " "]
